@@ -44,6 +44,14 @@ type C14Key struct {
 	P kyber.Point
 }
 
+// C14Both is registered for both APIs with two different functions: over the
+// websocket it is answered by bothWs, over REST (POST) by bothRest.
+type C14Both struct {
+	A int64
+	S string
+	B []byte
+}
+
 // REST (JSON) requests; the resource is the struct name
 type C14Post struct {
 	A int
@@ -172,6 +180,14 @@ func (s *c14Service) key(m *C14Key) (*C14Reply, error) {
 	}
 	return c14Transform("Key", m.A, str, nil)
 }
+func (s *c14Service) bothWs(m *C14Both) (*C14Reply, error) {
+	atomic.AddInt64(&c14Calls, 1)
+	return c14Transform("BothWs", m.A, m.S, m.B)
+}
+func (s *c14Service) bothRest(m *C14Both) (*C14Reply, error) {
+	atomic.AddInt64(&c14Calls, 1)
+	return c14Transform("BothRest", m.A, m.S, m.B)
+}
 func (s *c14Service) post(m *C14Post) (*C14Reply, error) {
 	atomic.AddInt64(&c14Calls, 1)
 	return c14Transform("Post", int64(m.A), m.S, m.B)
@@ -195,13 +211,14 @@ func (s *c14Service) getEmpty(m *C14Empty) (*C14Reply, error) {
 
 func newC14Service(c *onet.Context) (onet.Service, error) {
 	s := &c14Service{ServiceProcessor: onet.NewServiceProcessor(c)}
-	if err := s.RegisterHandlers(s.echo, s.swap, s.key, s.keep, s.who); err != nil {
+	// (the order is mirrored by `concreteRegs` in lean/OnetVerif/Model/C14.lean)
+	if err := s.RegisterHandlers(s.echo, s.swap, s.key, s.keep, s.who, s.bothWs); err != nil {
 		return nil, err
 	}
 	for _, r := range []struct {
 		f      interface{}
 		method string
-	}{{s.post, "POST"}, {s.put, "PUT"}, {s.getInt, "GET"}, {s.getBytes, "GET"}, {s.getEmpty, "GET"}} {
+	}{{s.post, "POST"}, {s.put, "PUT"}, {s.getInt, "GET"}, {s.getBytes, "GET"}, {s.getEmpty, "GET"}, {s.bothRest, "POST"}} {
 		if err := s.RegisterRESTHandler(r.f, c14ServiceName, r.method, 3, 3); err != nil {
 			return nil, err
 		}
